@@ -199,6 +199,28 @@ def run(prop, tier):
             if cur and not prev and viol is None:
                 viol = {"what": "raising the threshold to %d dB turned an inactive window active" % T, "width": w, "channels": chans, "use_channel": uc}
             prev = cur
+    # the same decision as split() applies it: with the threshold and channel selection given to split() (long or short
+    # spelling, thresholds 0 and below included), the regions are the segmentation of exactly the windows the rule declares active
+    from . import split as SP
+    au = C.import_auditok()
+    rs = C.rng("C07-split")
+    through_split = 0
+    for _ in range(150 if quick else 1500):
+        cs = SP.gen_case(rs, True)
+        if rs.random() < 0.5 and not isinstance(cs["eth"], float):
+            cs = dict(cs, eth=rs.choice([0, 0, -3, 2]), data=SP.synth(rs, cs["rate"], cs["w"], cs["ch"], cs["W"], len(cs["pattern"]), False, True)[0])
+        spelled = rs.choice(["energy_threshold", "eth"])
+        kw = dict(cs["params"]); kw.update({"analysis_window": cs["aw"], spelled: cs["eth"], rs.choice(["use_channel", "uc"]): cs["uc"],
+                                            "sampling_rate": cs["rate"], "sample_width": cs["w"], "channels": cs["ch"]})
+        try:
+            got = [0, SP.enc_regions(list(au.split(cs["data"], **kw)))]
+        except Exception:
+            continue
+        through_split += 1
+        wv = SP.chk_C05_composition(au, cs, got)
+        if wv and viol is None:
+            viol = {"what": "decision rule as applied by split(%s=%r): %s" % (spelled, cs["eth"], wv), **SP.describe(cs), "audio_bytes": list(cs["data"])[:2000]}
+    mono_checked += through_split
     vm = C.vm_crosscheck([c for c in cases if len(c[1][5]) <= 24][:200], [o for c, o in zip(cases, outs) if len(c[1][5]) <= 24][:200], "C07", 25)
     res.coverage.update({"evaluations": len(cases) + mono_checked, "distinct_nontrivial": len({C.dumps(c) for c, o in zip(cases, outs) if o == [0, 1]}),
                          "rule": "seeded windows of 1..%d samples, widths 1/2/4 with extremes, 1-4 channels, all selector spellings (valid, negative, out of range, unknown), thresholds integers -210..200 and halves/quarters; exact ties at even powers of ten with one-LSB neighbours; monotonicity sweeps; non-trivial = distinct window judged active by the model; float-zone cases (exact mean square within relative 2^-35 of the boundary without being a float-exact tie) are generated but not compared" % (24 if quick else 64),
